@@ -142,3 +142,6 @@ Definition parse_number : text -> option dec := parse_number_with in_int32.
 (* the "=" operator on two numbers: textualBinary converts both with ToXText (Render) and compares *)
 
 Definition equal_num (a b : dec) : bool := text_eqb (render a) (render b).
+
+(* a number against a text: the text operand is compared as it is (1 = "1.0" is false, 1 = "1" is true) *)
+Definition equal_num_text (a : dec) (s : text) : bool := text_eqb (render a) s.
